@@ -233,7 +233,7 @@ def fragile_ties(rmax=40):
 def maybe_late(rng, desc, p=0.08):
     """with probability p: the history `late` (see RealWorld).  Re-orders the agents (the late ones last): call it
     before anything that refers to agents by index is generated"""
-    if rng.random() >= p:
+    if rng.random() >= p or desc.get("enc0"):
         return desc
     ags = desc["agents"]
     n = len(ags)
@@ -261,8 +261,10 @@ def maybe_enc0(rng, desc, p=0.1):
     their encodings and get the final ones through the public setter after the components were built"""
     encs = [a["enc"] for a in desc["agents"]]
     if len(set(encs)) > 1 and rng.random() < p:
-        enc0 = list(encs)
-        rng.shuffle(enc0)
+        early = len(encs) - int(desc.get("late") or 0)     # (late joiners keep theirs: the early agents alone must
+        head = encs[:early]                                #  show every encoding at construction)
+        rng.shuffle(head)
+        enc0 = head + encs[early:]
         if enc0 != encs:
             desc["enc0"] = enc0
     return desc
